@@ -340,11 +340,31 @@ func init() {
 		}
 		bs := sliceTerms(args[2])
 		p := make([]byte, len(bs))
+		sym := false
 		for i, b := range bs {
 			if !b.IsConst() {
-				panic(unsupported{"crc64 over symbolic bytes"})
+				sym = true
+				break
 			}
 			p[i] = byte(b.C)
+		}
+		if sym {
+			// checksum of symbolic bytes: an opaque 64-bit value, the same for the same byte terms
+			// (the checksum is stored and reported, never branched on by the code under test)
+			key := fmt.Sprintf("%d|%d", crc, tab[1])
+			for _, b := range bs {
+				key += fmt.Sprintf("|%p", b)
+			}
+			if x.crcSym == nil {
+				x.crcSym = map[string]*Term{}
+			}
+			if t, ok := x.crcSym[key]; ok {
+				return t
+			}
+			t := x.freshAux("crc64", 64)
+			x.crcSym[key] = t
+			x.stubSeen["hash/crc64 of symbolic bytes: opaque value, functional in the bytes"] = true
+			return t
 		}
 		return mkConst(64, crc64.Update(crc, &tab, p))
 	})
